@@ -15,6 +15,8 @@ def np_array(ctx, xs):
 
 
 def log(ctx, x):
+    if isinstance(x, (int, float)):
+        return math.log(x)
     if ctx.is_sym():
         from symx.proxy import Sym, lift
         from symx import expr as X
@@ -23,6 +25,8 @@ def log(ctx, x):
 
 
 def exp(ctx, x):
+    if isinstance(x, (int, float)):
+        return math.exp(x)
     if ctx.is_sym():
         from symx.proxy import Sym, lift
         from symx import expr as X
